@@ -140,10 +140,8 @@ impl<'a, L: Label> Walk<'a, L> {
         let mws = c.mws4 as f64 / 4.0;
         let mwl = c.mwl4 as f64 / 4.0;
         ctx.require(rows.len() as f64 >= mws, "min_weight_split", &class, || format!("split node at depth {} reached by {} rows, min_weight_split {}", depth, rows.len(), mws));
-        for &i in &rows {
-            let v = c.x(i, f);
-            ctx.require(v != s, "routing_consistent", &class, || format!("row {} has value {} equal to the threshold of feature {}: fit sends it left (<=), predict right (<)", i, v, f));
-        }
+        // rows between threshold and next value would be routed differently from the sweep's
+        // partition; a row *on* the threshold is on the left at fit and predict time (`<=`)
         let lrows: Vec<usize> = rows.iter().copied().filter(|&i| c.x(i, f) <= s).collect();
         let rrows: Vec<usize> = rows.iter().copied().filter(|&i| !(c.x(i, f) <= s)).collect();
         let (fp, fl, fr) = (self.freq(&rows), self.freq(&lrows), self.freq(&rrows));
@@ -202,7 +200,7 @@ fn fit_case<L: Label + std::fmt::Debug>(c: &Case, ctx: &mut Ctx, enc: &dyn Fn(us
     let pred = tree.predict(&all);
     let pidx: Vec<Option<usize>> = pred.iter().map(|p| dec(p)).collect();
     for i in 0..n {
-        ctx.require(pidx[i].is_some() && pidx[i] == w.leaf_pred[i], "predict_is_fit_leaf", &class, || format!("row {} predicted {:?}, the leaf it was assigned while fitting predicts {:?}", i, pidx[i], w.leaf_pred[i]));
+        ctx.require(pidx[i].is_some() && pidx[i] == w.leaf_pred[i], "routing_consistent", &class, || format!("row {} predicted {:?}, the leaf it was assigned while fitting predicts {:?}", i, pidx[i], w.leaf_pred[i]));
     }
     for i in 0..n + np {
         ctx.require(pidx[i].is_some(), "seen_label", &class, || format!("prediction {:?} is not a training label", pred[i]));
@@ -272,6 +270,9 @@ fn gen_case(rng: &mut Rng, big: bool, stream: u8) -> Case {
     let (xd, vals): (u32, Vec<i64>) = match stream {
         // dyadic values around the 1e-5 equal-value skip: one unit = 2^-20 ≈ 9.5e-7
         1 => (20, vec![0, 10, 11, 21, 32, 42, 1 << 20, (1 << 20) + 10, (1 << 20) + 21, -11, -(1 << 19)]),
+        // neighbouring doubles at magnitude 2^40 (spacing 2^-12 > 1e-5): the midpoint of two
+        // neighbours is not representable and rounds onto one of them
+        4 => (12, vec![1 << 52, (1 << 52) + 1, (1 << 52) + 2, (1 << 52) + 3, (1 << 52) + 5, (1 << 52) + 8, (1 << 52) + 9]),
         _ => {
             let r = *rng.pick(&[2i64, 3, 4, 7]);
             (0, (0..=r).map(|v| v - (r / 3)).collect())
@@ -295,12 +296,12 @@ fn gen_case(rng: &mut Rng, big: bool, stream: u8) -> Case {
     } else {
         (Some((0..n).map(|_| rng.range(1, 5)).collect()), rng.below(2) as u32)
     };
-    let md = *rng.pick(&[None, None, Some(0usize), Some(1), Some(2), Some(3), Some(5)]);
+    let md = if stream == 4 { Some(1 + rng.below(3)) } else { *rng.pick(&[None, None, Some(0usize), Some(1), Some(2), Some(3), Some(5)]) };
     let mws4 = *rng.pick(&[8u32, 8, 0, 4, 10, 12, 20]);
     let mwl4 = if rng.chance(1, 25) { 0 } else { *rng.pick(&[4u32, 4, 1, 2, 6, 8, 12]) };
     let mid = *rng.pick(&[1e-5, 1e-5, f64::EPSILON, 0.01, 0.1, 0.25, 0.3, 0.5]);
     let np = rng.below(4);
-    let mut pr: Vec<Vec<i64>> = (0..np).map(|_| (0..p).map(|_| *rng.pick(&vals) + rng.range(-1, 1)).collect()).collect();
+    let mut pr: Vec<Vec<i64>> = (0..np).map(|_| (0..p).map(|_| *rng.pick(&vals) + if stream == 4 { 0 } else { rng.range(-1, 1) }).collect()).collect();
     if xd == 0 && n > 0 {
         // probes at doubled resolution are not representable with xd = 0; probe the data values and neighbours only
         pr.push(xs[rng.below(n)].clone());
@@ -321,15 +322,20 @@ pub fn run(em: &mut Em, rng: &mut Rng) {
     run_case(em, mk(vec![vec![0], vec![0], vec![1], vec![1]], vec![0, 1, 0, 1]));
     run_case(em, Case { md: Some(0), ..mk(vec![vec![0], vec![1], vec![2], vec![3]], vec![0, 0, 1, 1]) });
     run_case(em, Case { mwl4: 0, ..mk(vec![vec![0, 1], vec![1, 0], vec![2, 3], vec![3, 1], vec![4, 0]], vec![0, 1, 0, 1, 2]) });
+    // witnesses of the two repaired findings (neighbouring doubles at 2^40: the midpoint rounds
+    // onto the lower / the upper value)
+    let b52 = 1i64 << 52;
+    run_case(em, Case { md: Some(1), xd: 12, ..mk(vec![vec![b52], vec![b52], vec![b52 + 1], vec![b52 + 1]], vec![0, 0, 1, 1]) });
+    run_case(em, Case { md: Some(1), xd: 12, ..mk(vec![vec![b52 + 1], vec![b52 + 1], vec![b52 + 2], vec![b52 + 2]], vec![0, 0, 1, 1]) });
     let total = if big { 40000 } else { 3000 };
     for i in 0..total {
         let stream = match i % 20 {
             0..=11 => 0u8,
             12..=15 => 1,
             16..=18 => 2,
-            _ => if i % 200 == 19 { 3 } else { 0 },
+            _ => if i % 200 == 19 { 3 } else { 4 },
         };
-        em.count(&format!("stream:{}", ["lattice", "dyadic_eps", "modal_tie", "empty"][stream as usize]));
+        em.count(&format!("stream:{}", ["lattice", "dyadic_eps", "modal_tie", "empty", "adjacent_floats"][stream as usize]));
         let c = gen_case(rng, big && i % 3 != 0, stream);
         run_case(em, c);
     }
